@@ -118,8 +118,8 @@ namespace foonathan
             }
 
             FOONATHAN_ENABLE_IF(fallback_composable::value)
-            void* allocate_array(std::size_t count, std::size_t size,
-                                 std::size_t alignment) noexcept
+            void* try_allocate_array(std::size_t count, std::size_t size,
+                                     std::size_t alignment) noexcept
             {
                 auto ptr = default_composable_traits::try_allocate_array(get_default_allocator(),
                                                                          count, size, alignment);
